@@ -418,7 +418,12 @@ Proof.
     { unfold ts_step. destruct (c_kind c); try reflexivity. congruence. }
     rewrite Hts. repeat split; try assumption. unfold vout, pending_for. cbn [g_merge]. now rewrite app_nil_r.
   - exists c. unfold find_sub. cbn [g_subs].
-    repeat split; try assumption. unfold vout, pending_for. cbn [g_merge]. now rewrite app_nil_r.
+    assert (Hid1 : forall x : consumer, c_id (if ckind_eqb (c_kind x) KTs && negb (c_fresh x) then c_append x [LPat (g_next_pat s)] else x) = c_id x)
+      by (intro x; destruct (ckind_eqb (c_kind x) KTs && negb (c_fresh x)); reflexivity).
+    rewrite (find_map_id _ id (g_subs s) Hid1). unfold find_sub in Hfind. rewrite Hfind. cbn [option_map].
+    assert (Hc : (if ckind_eqb (c_kind c) KTs && negb (c_fresh c) then c_append c [LPat (g_next_pat s)] else c) = c).
+    { destruct (c_kind c); try reflexivity. congruence. }
+    rewrite Hc. repeat split; try assumption. unfold vout, pending_for. cbn [g_merge]. now rewrite app_nil_r.
   - exists c. unfold find_sub. cbn [g_subs].
     repeat split; try assumption. unfold vout, pending_for. cbn [g_merge]. now rewrite app_nil_r.
   - exists c. unfold find_sub. cbn [g_subs].
@@ -570,7 +575,7 @@ Proof.
       unfold same_but_subs. cbn. repeat split; try assumption; try congruence. now apply Permutation_app.
   - unfold feed_ts. unfold same_but_subs. cbn. rewrite <- H2, <- H6, <- H7.
     repeat split; try assumption; try congruence. now apply Permutation_map.
-  - unfold same_but_subs. cbn. repeat split; try assumption; congruence.
+  - unfold same_but_subs. cbn. rewrite <- H3. repeat split; try assumption; try congruence. now apply Permutation_map.
   - unfold same_but_subs. cbn. repeat split; try assumption; congruence.
   - unfold same_but_subs. cbn. rewrite <- Hs1. repeat split; try assumption; try congruence.
     apply Permutation_app_tail. assumption.
